@@ -629,6 +629,15 @@ pub fn inputs_for_witness_calculation(
 ) -> Result<[(&str, Vec<Fr>); 7]> {
     message_id_range_check(&rln_witness.message_id, &rln_witness.user_message_limit)?;
 
+    // The circuit constrains every direction value to be 0 or 1, one per path element
+    if rln_witness.path_elements.len() != rln_witness.identity_path_index.len()
+        || rln_witness.identity_path_index.iter().any(|v| *v > 1)
+    {
+        return Err(Report::msg(
+            "identity_path_index must hold one binary value per path element",
+        ));
+    }
+
     let mut identity_path_index = Vec::with_capacity(rln_witness.identity_path_index.len());
     rln_witness
         .identity_path_index
@@ -663,7 +672,8 @@ pub fn generate_proof(
     // If in debug mode, we measure and later print time take to compute witness
     #[cfg(test)]
     let now = Instant::now();
-    let full_assignment = calculate_rln_witness(inputs, graph_data);
+    let full_assignment =
+        calculate_rln_witness(inputs, graph_data).map_err(ProofError::WitnessError)?;
 
     #[cfg(test)]
     println!("witness generation took: {:.2?}", now.elapsed());
